@@ -56,7 +56,14 @@ def gen_elem(r, kind):
 
 def gen_list(r, kind=None, maxlen=8, minlen=0):
     kind = kind or r.choice(["int", "int", "dec", "str", "mix"])
-    return [gen_elem(r, kind) for _ in range(r.randint(minlen, maxlen))]
+    n = r.randint(minlen, maxlen)
+    if maxlen == 8 and r.random() < 0.04:
+        n = r.choice([17, 33, 65, 100, 129, 200, 400])        # beyond the thresholds of size-dependent paths
+        if kind == "int":
+            return [("int", r.randint(0, 60)) for _ in range(n)]
+        if kind == "str":
+            return [("str", "s%d" % r.randint(0, 60)) for _ in range(n)]
+    return [gen_elem(r, kind) for _ in range(n)]
 
 
 def L(items):
@@ -193,6 +200,18 @@ def run_collections(spec, ctx):
                 R.expect("%s%sreduce(%s, fn(p, q) p - q)" % (pre, q, la), fold(a, lambda p, q_: sub(p, q_)), "reduce", ("reduce", la), modern=modern)
                 R.expect("%s%sprod(%s)" % (pre, q, la), fold(a, mul), "prod", ("prod", la), modern=modern)
             R.expect("sum(%s)" % la, fold([("int", 0)] + a, add), "sum", ("sum", la))
+            if a and r.random() < 0.3:
+                # NULL is an element like any other: the folding function sees it, and what it returns is the accumulator
+                an = list(a)
+                an.insert(r.randrange(len(an) + 1), rv.NULL)
+                lan = src(L(an), r)
+
+                def pair(p_, q_):
+                    return L([p_, q_])
+                R.expect("%s%sreduce(%s, fn(p, q) [p, q])" % (pre, q, lan), fold(an, pair), "reduce:null-element", ("reduce-null", lan), modern=modern)
+                R.expect("%s%sreduce(%s, fn(p, q) if q == 2 then NULL else [p, q])" % (pre, q, la),
+                         fold(a, lambda p_, q_: rv.NULL if rv.ref_eq(q_, ("int", 2)) else L([p_, q_])), "reduce:null-result", ("reduce-nullres", la), modern=modern)
+                R.expect("%s%sprod(%s)" % (pre, q, lan), rv.NULL, "prod:null-element", ("prod-null", lan), modern=modern)
     # ranges
     for _ in range(40):
         x, y, st = r.randint(-5, 8), r.randint(-5, 8), r.choice([1, 1, 2, 3, -1, -2])
